@@ -43,12 +43,13 @@ REACH = ["shared_relay_pairs", "forged_create_live_exit_before_expiry", "forged_
          "garbage_on_live_id", "unknown_id_cell", "legit_destroy_removed_only_own", "data_delivered",
          "created_relabelled_with_live_exit_id", "signed_message_replayed_from_adversary_address", "forged_created_badauth", "forged_created_shortkey",
          "plaintext_flagged_data_on_live_exit_id", "nested_data_message_from_outside", "data_cell_into_half_built_circuit", "custom_join_policy", "keyless_relay_early_flood", "keyless_traffic_flood",
-         "forged_destroy_for_surviving_half_of_relay_pair", "first_data_cell_replayed_from_adversary_address"]
+         "forged_destroy_for_surviving_half_of_relay_pair", "first_data_cell_replayed_from_adversary_address",
+         "create_racing_with_create_for_same_id", "create_for_new_id_at_full_node"]
 
 ATTACKS = ["unknown_id", "garbage_live", "cross_body", "create_live", "create_live", "destroy_own_sig", "destroy_replay",
            "destroy_spoofed_src", "created_cid_swap", "signed_replay_adv", "forged_created_badauth", "forged_created_shortkey",
            "plain_data_live", "nested_data_from_outside", "data_into_half_built", "relay_early_flood", "traffic_flood",
-           "destroy_half_pair", "first_data_replay"]
+           "destroy_half_pair", "first_data_replay", "create_race", "full_node_create"]
 
 
 def cases(tier: str, base_seed: int):  # noqa: ANN201
@@ -205,6 +206,7 @@ def execute(case: dict) -> dict:  # noqa: C901, PLR0915
         # only entries of established circuits are expected to be stable (a half-built circuit may give up by time-out)
         stable: set = set()
         owner_of: dict = {}       # stable key -> index of the circuit it belongs to
+        state_once: dict = {}
         freed: set = set()        # ids of relay directions that "timed out on their own" (destroy_half_pair): free again
         diverted: set = set()     # circuits whose forward path was diverted by a replayed signed message (not judged, see below)
         for ci in circuits:
@@ -415,6 +417,84 @@ def execute(case: dict) -> dict:  # noqa: C901, PLR0915
                                           f"after a copy of the circuit's first data cell arrived from the adversary's address")
                     o.call(o.ov.remove_circuit, fresh.circuit_id, "c05 replay done", destroy=1)
                     fci["removed"] = True
+            elif kind == "create_race":
+                # an originator builds a new circuit; a third party that sees the plaintext create sends a create of its own with the
+                # SAME circuit id to the same hop so that both are handled in one event-loop iteration (the copy right behind the
+                # genuine one, or right in front of it)
+                import struct
+                o = tw.nodes[int(pick * 7) % n_orig]
+                race = {"done": False, "x": None, "cid": None}
+                after_genuine = int(pick * 100) % 3 != 0
+                dh = adv.call(adv.ov.crypto.generate_diffie_secret)
+                advpk = adv.my_peer.public_key.key_to_bin()
+
+                def racing_create(pkt, tr, _race=race, _o=o) -> None:  # noqa: ANN001
+                    parts = cell_parts(pkt.data)
+                    if _race["done"] or pkt.injected or parts is None or not parts[1] or parts[3][:1] != b"\x02" or pkt.src_node != _o.name:
+                        return
+                    _race["done"] = True
+                    _race["x"], _race["cid"] = tr.host.name, parts[0]
+                    forged = pkt.data[:29] + b"\x02" + struct.pack(">H", rng.randrange(65536)) + struct.pack(">H", len(advpk)) + advpk + \
+                        struct.pack(">H", len(dh[1])) + dh[1]
+
+                    def hand(_tr=tr, _d=forged) -> None:
+                        try:
+                            _tr.proto.datagram_received(_d, tuple(adv.address))
+                        except Exception:  # noqa: BLE001
+                            world.probe("racing_create_raised")
+                    if after_genuine:
+                        world.loop.call_soon(hand, context=world.node_context(tr.host.name, ("race", pkt.id)))
+                    else:
+                        hand()
+                net.on_deliver.append(racing_create)
+                fresh = o.call(o.ov.create_circuit, 1 + int(pick * 5) % 2)
+                await asyncio.sleep(2.0)
+                net.on_deliver.remove(racing_create)
+                if fresh is not None and race["done"]:
+                    world.probe("create_racing_with_create_for_same_id")
+                    c.nontrivial(f"create_race/{after_genuine}/{fresh.state}")
+                    xnode = next((x2 for x2 in tw.nodes if x2.name == race["x"]), None)
+                    # (after a replayed signed message the originator may believe that its neighbour lives at the adversary's address
+                    #  and send the create there: that denial of service is documented above and not judged)
+                    if fresh.hops and xnode is not None and xnode is not adv and fresh.circuit_id in o.ov.circuits:
+                        ent = xnode.ov.relay_from_to.get(race["cid"]) or xnode.ov.exit_sockets.get(race["cid"])
+                        mine, theirs = fresh.hops[0].keys, getattr(getattr(ent, "hop", None), "keys", None)
+                        same = theirs is not None and (mine.key_forward, mine.key_backward) == (theirs.key_forward, theirs.key_backward)
+                        if not same:
+                            c.violate("tables_unchanged", "entry_of_circuit_under_construction_taken_by_racing_create",
+                                      f"{o.name} accepted {race['x']} as first hop of circuit {race['cid']}, but the entry {race['x']} holds "
+                                      f"for that id {'does not exist' if ent is None else 'carries other session keys'}: a create for the same "
+                                      f"id sent by a third party {'right behind' if after_genuine else 'right in front of'} the genuine one "
+                                      f"was handled in the same loop iteration")
+                    if fresh.circuit_id in o.ov.circuits:
+                        o.call(o.ov.remove_circuit, fresh.circuit_id, "c05 race done", destroy=1)
+                    freed.add(race["cid"])
+            elif kind == "full_node_create":
+                # a node that has joined as many circuits as it is willing to (max_joined_circuits) and whose links were silent for a
+                # while (one ping period of loss) gets a create for a NEW id from a third party: refusing is fine, making room is not
+                xs = sorted({k3[0] for k3 in live if k3[1] == "exit_sockets"})
+                if xs and not state_once.get("blackout"):
+                    state_once["blackout"] = True        # (one silent period per run: several in a row would exceed max_time_inactive)
+                    await send_round(900)                # every circuit has just been active
+                    xnode = next(x2 for x2 in tw.nodes if x2.name == xs[int(pick * 991) % len(xs)])
+                    old_max = xnode.ov.settings.max_joined_circuits
+                    xnode.ov.settings.max_joined_circuits = len(xnode.ov.relay_from_to) + len(xnode.ov.exit_sockets)
+
+                    def blackout(pkt, _x=xnode):  # noqa: ANN001, ANN202
+                        if tuple(pkt.dst) == tuple(_x.address) and pkt.src_node != adv.name and not pkt.injected:
+                            world.fault("targeted_drop")
+                            return "drop"
+                        return None
+                    net.filters.append(blackout)
+                    await asyncio.sleep(8.0 + pick / 2)
+                    world.probe("create_for_new_id_at_full_node")
+                    c.nontrivial(f"full_node_create/{after_expiry}")
+                    dh = adv.call(adv.ov.crypto.generate_diffie_secret)
+                    adv.call(adv.ov.send_cell, xnode.address,
+                             CreatePayload(rng.getrandbits(32) | 1, rng.randrange(65536), adv.my_peer.public_key.key_to_bin(), dh[1]))
+                    await asyncio.sleep(0.5)
+                    net.filters.remove(blackout)
+                    xnode.ov.settings.max_joined_circuits = old_max
             elif kind == "plain_data_live":
                 # a well-formed DataPayload that simply claims to be plaintext, under the id of an established exit entry, towards an
                 # outside server of the adversary's choosing
